@@ -129,7 +129,7 @@ def episode_vec(spec: Any, text: str, by_id: Optional[Dict[str, Any]] = None):
 
 def gen_world(r: Stream, *, n_agents: Optional[int] = None, max_graphs: int = 3, max_nodes: int = 8,
               max_edges: int = 16, max_eps: int = 12, disjoint: Optional[bool] = None,
-              odd_ids: bool = True, bad_ts: bool = False, with_gel: bool = False) -> Dict[str, Any]:
+              odd_ids: bool = True, bad_ts: bool = False, with_gel: bool = False, naive_ts: bool = False) -> Dict[str, Any]:
     n_agents = n_agents or r.randint(1, 3)
     agents = AGENTS[:n_agents]
     n_graphs = r.randint(1, max_graphs)
@@ -181,6 +181,8 @@ def gen_world(r: Stream, *, n_agents: Optional[int] = None, max_graphs: int = 3,
         age_days = r.choice([0, 0, 1, 5, 29, 30, 31, 90, 400, 0.6, 0.95, 29.6, 29.95, 364.7])
         ts_ms = T0_MS - int(age_days * 86_400_000) - r.randint(0, 3_600_000)
         ts: Any = iso_from_ms(ts_ms).replace("+00:00", "Z")
+        if naive_ts and r.chance(0.3):
+            ts = ts[:-1]  # no UTC offset, as datetime.utcnow().isoformat() writes it
         if bad_ts and r.chance(0.2):
             ts = r.choice(["", "garbled", None])
         ep: Dict[str, Any] = {"id": "ep%02d" % ei, "owner": r.choice(owners), "text": text, "ts": ts,
